@@ -407,13 +407,39 @@ func (t *transpiler) evaluateVarDefinitionCallAssignment(definition parser.Varia
 }
 
 func (t *transpiler) evaluateVarAssignment(assignment parser.VariableAssignment) error {
-	for i, variable := range assignment.Variables() {
+	variables := assignment.Variables()
+	values := []string{}
+
+	// Evaluate all values before the first variable is assigned.
+	for i := range variables {
 		result, err := t.evaluateExpression(assignment.Values()[i], true)
 
 		if err != nil {
 			return err
 		}
-		err = t.converter.VarDefinition(variable.Name(), result.firstValue(), variable.Global())
+		values = append(values, result.firstValue())
+	}
+
+	// A simultaneous assignment (a, b = b, a) uses the old values on the right side.
+	// Therefore, buffer the values before any of the variables is overwritten.
+	if len(variables) > 1 {
+		for i, value := range values {
+			buffer := fmt.Sprintf("_ma%d", i)
+			err := t.converter.VarDefinition(buffer, value, true)
+
+			if err != nil {
+				return err
+			}
+			values[i], err = t.converter.VarEvaluation(buffer, true, true)
+
+			if err != nil {
+				return err
+			}
+		}
+	}
+
+	for i, variable := range variables {
+		err := t.converter.VarDefinition(variable.Name(), values[i], variable.Global())
 
 		if err != nil {
 			return err
